@@ -261,4 +261,5 @@ def roundtrip_check(ctx, v, prop="C06", where="roundtrip", origin=None):
             d = _first_diff(pts, iv.vector(back, pts), iv.vector(v, pts))
         violation(prop, where, "text does not parse back to an equal specifier",
                   {"spec": iv.describe(v), "text": text, "reparsed": iv.describe(back) if iv.readable(back) else repr(back),
-                   "equal": eq, "same_set": same, "path": path, "diff": d, "origin": origin})
+                   "equal": eq, "same_set": same, "path": path, "diff": d, "origin": origin},
+                  live={"spec": v, "back": back})
